@@ -214,6 +214,13 @@ main(void)
   char*  tok[16];
   long   idx = 0;
   char   dir[128], srcp[192], dstp[192];
+  {
+    // the cases are read from a duplicate of descriptor 0, so that a case may close descriptor 0 itself
+    FILE* const in = fdopen(dup(0), "r");
+    if (in) {
+      stdin = in;
+    }
+  }
   while (vgetline(&line, &cap)) {
     ++idx;
     alarm(60);
@@ -260,13 +267,26 @@ main(void)
       vw_b2            = atol(tok[7]);
       track.fail       = tok[8][0] == 'N';
       track.fail_errno = track.fail ? atoi(tok[8] + 1) : 0;
+      // errno at entry; a leading 'z': the call is made in a process whose descriptor 0 is closed (a daemon),
+      // so that the first descriptor the function opens is 0
+      const int closed0 = tok[9][0] == 'z';
+      if (closed0) {
+        close(0);
+      }
       const int fds0   = count_fds();
-      errno            = atoi(tok[9]);
+      errno            = atoi(tok[9] + closed0);
       vw_active        = 1;
       const ZixStatus st =
         zix_copy_file(&track.base, srcp, dstp, overwrite ? ZIX_COPY_OPTION_OVERWRITE_EXISTING : ZIX_COPY_OPTION_NONE);
       vw_active      = 0;
       const int fds1 = count_fds();
+      if (closed0) {
+        const int nfd = open("/dev/null", O_RDONLY);
+        if (nfd > 0) {
+          dup2(nfd, 0);
+          close(nfd);
+        }
+      }
       printf("st= %s dst= ", status_name(st));
       put_file_state(stdout, dstp);
       fputs(" src= ", stdout);
